@@ -5,7 +5,8 @@ from sa.cfg import BranchFacts
 from sa.flow import arg_nodes
 
 UNITS = ["lib/BuildSystem/ExternalCommand.cpp", "lib/BuildSystem/BuildSystem.cpp", "lib/BuildSystem/ShellCommand.cpp",
-         "lib/Commands/BuildSystemCommand.cpp", "products/libllbuild/BuildSystem-C-API.cpp", "lib/BuildSystem/BuildSystemFrontend.cpp"]
+         "lib/Commands/BuildSystemCommand.cpp", "products/libllbuild/BuildSystem-C-API.cpp", "lib/BuildSystem/BuildSystemFrontend.cpp",
+         "lib/Basic/Subprocess.cpp"]
 THOROUGH_ALL_UNITS = False
 EXPLANATION = (
     "Sibling cross-check of every Command::getResultForOutput override: failed, propagated-failure and cancelled values map to "
@@ -168,6 +169,9 @@ def run(ctx):
                 if n.get("k") == "bin" and n["op"] == "=" and expr_str(n.child("l")) == "hasPriorResult" and core(n.child("r")).get("v") is True:
                     writers.add(g_.name.split("::")[-1])
     r.check(writers == {"providePriorValue"}, "hasPriorResult|single-writer", "", "hasPriorResult is set to true in %s" % sorted(writers))
+
+    from rules import C16
+    C16.r_status_decode(prog, rep)       # exit status / signal -> ProcessStatus: the stage before the map below
 
     r = rep.rule("R-STATUS-MAP", "the process status maps Failed -> failed command, Cancelled -> cancelled command, Succeeded -> computed result; nothing "
                                  "else reports a result", floor=3)
